@@ -21,6 +21,13 @@ pub fn run(sc: &Value) -> Value {
     std::fs::create_dir_all(&src2).unwrap();
     make_tree(&src1, &sc["first_tree"]);
     make_tree(&src2, &sc["second_tree"]);
+    // two racing backups: the second actor backs up "third_tree" instead of collecting garbage
+    let two_backups = sc["third_tree"].is_array();
+    let src3 = tmp.path().join("src3");
+    std::fs::create_dir_all(&src3).unwrap();
+    if two_backups {
+        make_tree(&src3, &sc["third_tree"]);
+    }
     let opts = || BackupOptions { small_file_cap: 0, ..BackupOptions::default() };
     let rt = tokio::runtime::Builder::new_current_thread().enable_all().build().unwrap();
     // history: one complete version, plus a garbage block holding the content of the file named by "garbage_file"
@@ -40,6 +47,10 @@ pub fn run(sc: &Value) -> Value {
     let st2 = state.clone();
     let log = Arc::new(Mutex::new(Vec::<Value>::new()));
     let log2 = log.clone();
+    // writes aimed at a file that already exists non-empty: (path, modification time before the write)
+    let attempts = Arc::new(Mutex::new(Vec::<(String, std::time::SystemTime)>::new()));
+    let attempts2 = attempts.clone();
+    let arch_for_hook = arch.clone();
     verif_hook::set_callback(Some(Arc::new(move |verb: &str, path: &str, _c: Option<&[u8]>| {
         let me = std::thread::current().name().unwrap_or("?").to_string();
         if path == "CONSERVE" {
@@ -58,6 +69,13 @@ pub fn run(sc: &Value) -> Value {
         }
         g.pos += 1;
         log2.lock().unwrap().push(json!([me, verb, path]));
+        if verb == "write" {
+            if let Ok(md) = std::fs::metadata(arch_for_hook.join(path)) {
+                if md.is_file() && md.len() > 0 {
+                    attempts2.lock().unwrap().push((path.to_string(), md.modified().unwrap()));
+                }
+            }
+        }
         cv.notify_all();
         Action::Proceed
     })));
@@ -78,16 +96,22 @@ pub fn run(sc: &Value) -> Value {
         rt.block_on(async {
             let archive = Archive::open_path(&a1).await.unwrap();
             match backup(&archive, &s2, &BackupOptions { small_file_cap: 0, ..BackupOptions::default() }, TestMonitor::arc()).await {
-                Ok(_) => "Ok".to_string(),
+                Ok(st) => if two_backups { format!("Ok errors={}", st.errors) } else { "Ok".to_string() },
                 Err(e) => format!("Err:{e:?}"),
             }
         })
     }));
-    let a2 = arch.clone();
-    let tg = spawn("gc", Box::new(move || {
+    let (a2, s3) = (arch.clone(), src3.clone());
+    let tg = spawn(if two_backups { "backup2" } else { "gc" }, Box::new(move || {
         let rt = tokio::runtime::Builder::new_current_thread().enable_all().build().unwrap();
         rt.block_on(async {
             let archive = Archive::open_path(&a2).await.unwrap();
+            if two_backups {
+                return match backup(&archive, &s3, &BackupOptions { small_file_cap: 0, ..BackupOptions::default() }, TestMonitor::arc()).await {
+                    Ok(st) => format!("Ok errors={}", st.errors),
+                    Err(e) => format!("Err:{e:?}"),
+                };
+            }
             let r = archive.delete_bands(&[], &DeleteOptions::default(), TestMonitor::arc()).await;
             tokio::time::sleep(std::time::Duration::from_millis(20)).await;
             match r {
@@ -101,6 +125,7 @@ pub fn run(sc: &Value) -> Value {
     verif_hook::set_callback(None);
     // every complete version must restore without errors
     let before = snapshot(&src2);
+    let before3 = snapshot(&src3);
     let versions = rt.block_on(async {
         let archive = Archive::open_path(&arch).await.unwrap();
         let mut out = Vec::new();
@@ -114,9 +139,14 @@ pub fn run(sc: &Value) -> Value {
             let errs = rm.take_errors().iter().map(|e| format!("{e}")).collect::<Vec<_>>();
             let after = if dest.exists() { snapshot(&dest) } else { vec![] };
             out.push(json!({"band": format!("{band_id}"), "restore_ok": rr.is_ok(), "restore_errors": errs,
-                            "differs_from_second_tree": diff_snapshots(&before, &after, false).len()}));
+                            "differs_from_second_tree": diff_snapshots(&before, &after, false).len(),
+                            "differs_from_third_tree": diff_snapshots(&before3, &after, false).len()}));
         }
         out
     });
-    json!({"backup": rb, "gc": rg, "versions": versions, "ops": log.lock().unwrap().clone()})
+    // which of those writes went through: the file is gone or carries a new modification time
+    let rewritten: Vec<String> = attempts.lock().unwrap().iter()
+        .filter(|(p, before)| std::fs::metadata(arch.join(p)).and_then(|m| m.modified()).map(|now| now != *before).unwrap_or(true))
+        .map(|(p, _)| p.clone()).collect();
+    json!({"backup": rb, "gc": rg, "versions": versions, "rewritten": rewritten, "ops": log.lock().unwrap().clone()})
 }
